@@ -70,6 +70,16 @@ CHECKS = {
         "Bound: strings <=4 chars; 11 declaration forms, 10 parameter-list shapes, up to two independent lists per declaration. The parser runs concretely per path in the differential harness. `(void x)` / `(const void)` are not generated (unspecified).",
         "DESIGN.md 3/C18",
     ),
+    "C10": (
+        "model_checking",
+        "CrossHair (z3) symbolic execution of the real t_PP_DIRECTIVE / _line_re / current_location for all integers and file names, and of the real LexerTokenStream + CxxParser over a token-replaying stub lexer with symbolic strictly increasing line numbers; enumerated end-to-end preambles through the real lexer",
+        "Arithmetic: confirmed over all paths for all physical lines, directive numbers, distances and previous offsets (unbounded integers) and all quoted names inside the bound: one directive step, which is inductive. "
+        "Plumbing: for every listed program shape and ALL strictly increasing line assignments every declaration callback carries a location inside its declaration's extent and the file name. "
+        "End to end: every preamble (blank lines, comments, continuations, CRLF, #line, # N) x probe (3 declarations, 3 errors) x shift is run through the real lexer and compared with a counting oracle.",
+        "Bound: 3 program shapes (all callback kinds with a documented location assignment), names <=4 chars, <=3 (quick) / 4 (thorough) preamble elements. Character-level line counting is C08. "
+        "Error-message prefix with symbolic lines is not decidable (f-strings realise symbolic ints): checked end to end only. D13 is a known finding.",
+        "DESIGN.md 3/C10",
+    ),
 }
 
 NOT_YET = "no check landed yet in this build (planned engine and bounds: DESIGN.md section 3); not claimed until the check runs green"
